@@ -222,6 +222,40 @@ func TempFile(name string) string {
 	return filepath.Join(tmpDir, strings.ReplaceAll(name, "/", "_"))
 }
 
+// TempDir is the directory TempFile names live in.
+func TempDir() string { return filepath.Dir(TempFile("x")) }
+
+// MkDir creates a directory (a path from TempFile).
+func MkDir(name string) {
+	if err := os.Mkdir(name, 0o755); err != nil {
+		fmt.Println("VERIF-ERROR mkdir:", err)
+		os.Exit(99)
+	}
+}
+
+// RunCLI runs the gosk command with the argument vector and returns its
+// exit status and what it printed (stdout and stderr together).  Under the
+// engine main() is executed symbolically in place; natively the real binary
+// (built by the check from /repo, named by VERIF_GOSK) is executed.
+func RunCLI(args []string) (int, string) {
+	bin := os.Getenv("VERIF_GOSK")
+	if bin == "" {
+		fmt.Println("VERIF-ERROR VERIF_GOSK not set")
+		os.Exit(99)
+	}
+	cmd := exec.Command(bin, args...)
+	cmd.Dir = TempDir()
+	out, err := cmd.CombinedOutput()
+	code := 0
+	if ee, ok := err.(*exec.ExitError); ok {
+		code = ee.ExitCode()
+	} else if err != nil {
+		fmt.Println("VERIF-ERROR cannot run gosk:", err)
+		os.Exit(99)
+	}
+	return code, string(out)
+}
+
 func Cleanup() {
 	if tmpDir != "" {
 		os.RemoveAll(tmpDir)
